@@ -19,7 +19,8 @@ def calibrate_test(modname, cname, ts, pyver=None):
     Returns dict: F/E/S/U/X lists of str(test or subtest), 'run' =
     testsRun, 'started' = whether setUp was reached."""
     key = (modname, cname, ts['name'], ts['kind'], tuple(ts.get('subs') or ()),
-           ts.get('exc'), ts.get('exc2'))
+           ts.get('exc'), ts.get('exc2'), ts.get('submsg'),
+           repr(sorted((ts.get('subkw') or {}).items())))
     if key in _cache:
         return _cache[key]
     import vworld_rt
